@@ -358,6 +358,12 @@ Definition spec_ok (u : unit_t) (ib : list f64) (ups : list (list Z * f64)) (o :
     end
   else true.
 
+(* re-bucketing is a function of its input: the model is a Gallina function, so the same input gives the same
+   output and the input (a value) cannot change.  The harness observes both on the real code, which works on
+   slices: [unchanged] = the caller's boundary slice is bit-identical after the calls, [same] = a second call on
+   the same slice returns the same boundaries.  Required whenever the code did not panic. *)
+Definition purity_ok (unchanged same : bool) : bool := unchanged && same.
+
 (* rules: the last matching rule decides; no matching rule means denied *)
 Definition rule_spec (rules : list (bool * bool)) : bool :=
   match find (fun r => fst r) (rev rules) with
